@@ -173,3 +173,11 @@ def eqdict():
         from crosshair.simplestructs import ShellMutableMap, SimpleDict
         return ShellMutableMap(SimpleDict([]))
     return {}
+
+
+def be_int(raw, signed=False):
+    """integer value of big-endian bytes (two's complement if signed)"""
+    if STATE["symbolic"]:
+        from engine import chmodels
+        return chmodels.compose_be(raw, signed)
+    return int.from_bytes(bytes(raw), "big", signed=signed)
